@@ -448,6 +448,25 @@ Section Calls.
         end
     | EDebugMapBuilder => (RStuck, s)          (* local item declarations: not interpreted *)
     | EDebugFieldArg _ _ _ _ _ _ => (RStuck, s)
+    | EDiscrMatch ds eq gt lt =>
+        (* compares the declared discriminant values of the variants `self` and `other` are in *)
+        match lookup "self" en, lookup "other" en with
+        | Some a, Some b =>
+            match strip (st_store s) a, strip (st_store s) b with
+            | Some (VData (Some va) _), Some (VData (Some vb) _) =>
+                match lookup va ds, lookup vb ds with
+                | Some x, Some y =>
+                    match Z.compare x y with
+                    | Eq => eval en eq s
+                    | Gt => eval en gt s
+                    | Lt => eval en lt s
+                    end
+                | _, _ => (RStuck, s)
+                end
+            | _, _ => (RStuck, s)
+            end
+        | _, _ => (RStuck, s)
+        end
     end.
 
   (** running a method body: a propagating `return` becomes the result *)
